@@ -22,7 +22,7 @@ DRIVER = 'Drivers/C14.lean'
 RULE = ('one case = one history: a construction (constructor / from_sequence / ContentItem.ContentSequence setter) of a '
         'root, non-root SR or non-SR sequence from 0..4 items followed by 1..15 operations drawn from append, extend, '
         '(argument a list or a ContentSequence with any flags), insert (any position), setitem (index / slice incl. extended), delitem (index / slice), +=, pop, remove, '
-        'reverse, clear, continue-on-find-result, continue-on-get_nodes-result; items share a 4-name alphabet (equal '
+        'reverse, clear, continue-on-find-result, continue-on-get_nodes-result; in 35 % of the histories a POOL of up to three sequences is alive (clone = ContentSequence(member, own flags), attach = item.ContentSequence = member), operations go to any member and EVERY member is observed after every step; items share a 4-name alphabet (equal '
         'names may differ in code meaning), carry or lack a relationship type, and have a unique ObservationUID unless '
         'deliberately duplicated (same object or equal copy); after every step list, find(n) for all names, index/in '
         'for all items made so far and get_nodes are observed.  Non-trivial = history with >= 2 accepted mutations and '
@@ -119,8 +119,12 @@ def gen_case(ctx, idx):
     nops = r.choice([1, 2, 3, 4, 5, 6, 8, 10, 12, 15])
     ops = []
     est = n_init                      # rough length estimate, only steers the index distribution
+    pool_case = r.random() < 0.35     # several sequences alive at once (one built from another)
     for _ in range(nops):
         x = r.random()
+        if pool_case and r.random() < 0.22:
+            ops.append({'op': r.choice(['clone', 'clone', 'attach']), 'seq': r.randrange(3)})
+            continue
         if x < 0.24:
             ops.append({'op': 'append', 'x': _gen_item(r, kind, st)})
             est += 1
@@ -163,6 +167,9 @@ def gen_case(ctx, idx):
             ops.append({'op': 'into_find', 'n': r.randrange(NAMES)})
         else:
             ops.append({'op': 'into_nodes'})
+    if pool_case:
+        for op in ops:
+            op.setdefault('seq', r.randrange(3))       # taken modulo the pool size when the history runs
     extra = _gen_item(r, kind, st)          # an item that never enters: probe for index / in
     extra.pop('dup', None)
     return {'idx': idx, 'kind': kind, 'via': via, 'init': init, 'ops': ops, 'probe': extra}
@@ -407,8 +414,20 @@ def _construct(case, objs):
     return seq, None
 
 
+def _pool_put(pool, kinds, seq, kind):
+    if len(pool) < 3:
+        pool.append(seq)
+        kinds.append(kind)
+    else:
+        pool[2], kinds[2] = seq, kind
+
+
 def run_history(ctx, case, oracle=True):
-    """Runs one history on the implementation; returns the trace [(err, observation)] (construction first)."""
+    """Runs one history on the implementation; returns the trace [(err, observations of every pool member)]
+    (construction first).  The pool starts with the constructed sequence; `clone` / `attach` add sequences built
+    from a member; every other operation goes to member `seq` (mod pool size); after EVERY operation EVERY member
+    is observed and put to the oracle."""
+    from highdicom.sr import ContainerContentItem, ContentSequence
     objs = _Objs()
     kind = case['kind']
     probes = []
@@ -428,28 +447,48 @@ def run_history(ctx, case, oracle=True):
             ctx.fail({'case': case, 'step': -1}, f'construction from acceptable items refused ({err})', site='construct')
         trace.append({'err': err, 'obs': None})
         return trace, None
-    if oracle and not all(_rule_ok(kind, d) for d in case['init']):
-        pass   # the rule check over the list below reports it
-    obs = _observe(seq, objs, probes)
+    pool, kinds = [seq], ['sr' if case['via'] == 'setattr' else kind]
+    obs = [_observe(seq, objs, probes)]
     trace.append({'err': None, 'obs': obs, 'probes': list(probes)})
     if oracle:
-        _oracle(ctx, case, -1, seq, kind, objs, probes, obs)
+        _oracle(ctx, case, -1, seq, kinds[0], objs, probes, obs[0])
     for k, op in enumerate(case['ops']):
         note_items([op['x']] if 'x' in op else op.get('xs', []))
-        n_before = len(seq)
-        seq, err = _apply(seq, op, objs)
-        obs = _observe(seq, objs, probes)
+        t = op.get('seq', 0) % len(pool)
+        n_before = len(pool[t])
+        if op['op'] in ('clone', 'attach'):
+            err = None
+            try:
+                if op['op'] == 'clone':
+                    is_root, is_sr = KINDS[kinds[t]]
+                    new, nk = ContentSequence(pool[t], is_root=is_root, is_sr=is_sr), kinds[t]
+                else:
+                    parent = ContainerContentItem(_name(0), relationship_type='CONTAINS')
+                    parent.ContentSequence = pool[t]
+                    new, nk = parent.ContentSequence, 'sr'
+                _pool_put(pool, kinds, new, nk)
+            except Exception as e:  # noqa: BLE001
+                err = _kind_of(e)
+        else:
+            pool[t], err = _apply(pool[t], op, objs)
+        obs = [_observe(m, objs, probes) for m in pool]
         trace.append({'err': err, 'obs': obs, 'probes': list(probes)})
         if oracle:
-            exp = _expected_accept(kind, op, n_before, objs)
-            if exp is True and err is not None:
-                ctx.fail({'case': case, 'step': k}, {'what': f'{op["op"]} refused items that obey the relationship rule '
-                                                            f'of a {kind} sequence', 'error': err}, site=op['op'])
-            if err is not None and err.startswith('other:'):
-                ctx.fail({'case': case, 'step': k}, f'{op["op"]} raised unexpected {err}', site=op['op'])
-            if op['op'] in ('pop', 'remove', 'reverse', 'clear') and err not in (None, 'index', 'value'):
-                ctx.fail({'case': case, 'step': k}, f'{op["op"]} failed with {err}', site=op['op'])
-            _oracle(ctx, case, k, seq, kind, objs, probes, obs)
+            if op['op'] not in ('clone', 'attach'):
+                exp = _expected_accept(kinds[t], op, n_before, objs)
+                if exp is True and err is not None:
+                    ctx.fail({'case': case, 'step': k}, {'what': f'{op["op"]} refused items that obey the relationship rule '
+                                                                f'of a {kinds[t]} sequence', 'error': err}, site=op['op'])
+                if err is not None and err.startswith('other:'):
+                    ctx.fail({'case': case, 'step': k}, f'{op["op"]} raised unexpected {err}', site=op['op'])
+                if op['op'] in ('pop', 'remove', 'reverse', 'clear') and err not in (None, 'index', 'value'):
+                    ctx.fail({'case': case, 'step': k}, f'{op["op"]} failed with {err}', site=op['op'])
+            elif op['op'] == 'clone' and err is not None and all(
+                    _ctor_documented_ok(kinds[t], objs.specs[u]) for u in trace[-2]['obs'][t]['list']):
+                ctx.fail({'case': case, 'step': k}, f'a sequence could not be constructed from a {kinds[t]} sequence with the '
+                                                    f'same flags ({err})', site='clone')
+            for m, (member, mk) in enumerate(zip(pool, kinds)):
+                _oracle(ctx, case, k, member, mk, objs, probes, obs[m])
     return trace, objs
 
 
@@ -490,8 +529,11 @@ def _compare(ctx, case, trace, ans):
             return
         if a['obs'] is None:
             continue
-        for key in ('list', 'find', 'index', 'in', 'nodes'):
-            va, vb = a['obs'][key], b['obs'][key]
+        if len(a['obs']) != len(b['obs']):
+            ctx.disagree('L0', {'case': case, 'step': k - 1}, len(a['obs']), len(b['obs']), 'number of sequences in the pool')
+            return
+        for m, key in [(m, key) for m in range(len(a['obs'])) for key in ('list', 'find', 'index', 'in', 'nodes')]:
+            va, vb = a['obs'][m][key], b['obs'][m][key]
             va = json.loads(json.dumps(va))
             # error kinds inside observations: compare ok-vs-error only
             def norm(v):
@@ -501,7 +543,7 @@ def _compare(ctx, case, trace, ans):
                     return [norm(x) for x in v]
                 return v
             if norm(va) != norm(vb):
-                ctx.disagree('L0', {'case': case, 'step': k - 1}, {key: va}, {key: vb}, f'observable {key}')
+                ctx.disagree('L0', {'case': case, 'step': k - 1, 'member': m}, {key: va}, {key: vb}, f'observable {key}')
                 return
 
 
@@ -575,10 +617,10 @@ def run(ctx):
                 d['m'] = 0
         trace, _ = run_history(ctx, case)
         accepted = sum(1 for t, op in zip(trace[1:], case['ops']) if t['err'] is None
-                       and op['op'] not in ('into_find', 'into_nodes'))
+                       and op['op'] not in ('into_find', 'into_nodes', 'clone', 'attach'))
         shared = False
         for t in trace:
-            if t['obs'] and any(isinstance(f, list) and len(f) >= 2 for f in t['obs']['find']):
+            if t['obs'] and any(isinstance(f, list) and len(f) >= 2 for o in t['obs'] for f in o['find']):
                 shared = True
         key = None
         if accepted >= 2 and shared:
@@ -588,7 +630,8 @@ def run(ctx):
         for t, op in zip(trace[1:], case['ops']):
             ctx.hist('ops', op['op'] + ('[seq:' + op['as_seq'] + ']' if op.get('as_seq') else '') + ('' if t['err'] is None else '/refused:' + t['err']))
         if trace[-1]['obs']:
-            ctx.hist('final_len', min(len(trace[-1]['obs']['list']), 12))
+            ctx.hist('final_len', min(len(trace[-1]['obs'][0]['list']), 12))
+            ctx.hist('pool_size', len(trace[-1]['obs']))
         reqs.append(model_request(case))
         traces.append((case, trace))
     answers = ctx.model(reqs)
